@@ -105,7 +105,7 @@ def run(ctx):
         R["C02.R1"].fail("C02.R1:anchor", recv.path, recv.span, "anchor-missing: Receive handler has no Cw20ReceiveMsg parameter")
         return
     hv = P.val_call(recv, recv.body, hcall)
-    offer_i = common.param_index_of_type(swap, r"^haloswap::asset::Asset$")
+    offer_i = common.param_index_of_type(swap, "^%s$" % ctx.N.rx("Asset"))
     sender_i = common.param_index_of_type(swap, r"^cosmwasm_std::\S*Addr$")
     to_i = common.param_index_of_type(swap, r"^std::option::Option<cosmwasm_std::\S*Addr>$")
     sinfo = param(swap, INFO_TY)
@@ -137,7 +137,7 @@ def run(ctx):
     # ---- R3 asset binding ---------------------------------------------------------------------------
     r3 = R["C02.R3"]
     r3_ok = False
-    want_tok = "A:haloswap::asset::AssetInfo::Token{contract_addr=%s}" % P_(recv, rinfo, ".sender")
+    want_tok = "A:%s::Token{contract_addr=%s}" % (ctx.N.AssetInfo, P_(recv, rinfo, ".sender"))
     # (a) the asset info handed over is built from info.sender
     if set(ctx.roots(hv[4][offer_i], (("f", "info"),))) == {want_tok}:
         r3_ok = True
@@ -190,9 +190,9 @@ def run(ctx):
             if lp:
                 ads, kind, src = common.iter_chain(lp[0]["iter"])
                 sr = set(ctx.roots(src))
-                if not ads and kind == "iter" and len(sr) == 1 and re.match(r"^C:haloswap::asset::PairInfoRaw::query_pools@", list(sr)[0]):
+                if not ads and kind == "iter" and len(sr) == 1 and re.match(r"^C:%s@" % ctx.N.rx("query_pools"), list(sr)[0]):
                     src_ok = True
-            elif re.match(r"^C:haloswap::asset::PairInfoRaw::query_pools@", other):
+            elif re.match(r"^C:%s@" % ctx.N.rx("query_pools"), other):
                 src_ok = True
             if not src_ok:
                 r2.fail("C02.R2:flag-source", recv.path, common.span_of_block_term(recv, g2.b), "authorisation compares info.sender with %s, which is not an element of the pair's own pools" % other)
@@ -215,7 +215,7 @@ def run(ctx):
     r4 = R["C02.R4"]
     ex, dedge, dregion, _, dcall = pr.swap_direct
     dv = P.val_call(ex, ex.body, dcall)
-    msg_i = common.param_index_of_type(ex, r"^haloswap::pair::ExecuteMsg$")
+    msg_i = common.param_index_of_type(ex, "^%s$" % re.escape(ctx.N.exec_enum("pair")))
     direct_offer = set(ctx.roots(dv[4][offer_i]))
     want_direct = {P_(ex, msg_i, "~Swap.offer_asset")}
     if direct_offer != want_direct:
@@ -268,7 +268,7 @@ def run(ctx):
         else:
             pricing_root = list(amt)[0][:-2]
             r6.site("payout amount ⊢ %s" % list(amt)[0])
-        if not inf or not all(re.match(r"^C:haloswap::asset::PairInfoRaw::query_pools@%s:bb\d+\[[01*]\]\.info$" % re.escape(swap.path), x) for x in inf):
+        if not inf or not all(re.match(r"^C:%s@%s:bb\d+\[[01*]\]\.info$" % (ctx.N.rx("query_pools"), re.escape(swap.path)), x) for x in inf):
             r6.fail("C02.R6:asset-origin", swap.path, where, "payout asset ⊢ %s, expected the info of one of the pair's own pools" % sorted(inf))
         else:
             r6.site("payout asset ⊢ pools[k].info")
@@ -338,7 +338,7 @@ def pool_membership(ctx, swap, offer_i):
             a, b = set(ctx.roots(c[2][0])), set(ctx.roots(c[2][1]))
             for x, y in ((a, b), (b, a)):
                 if x == {P_(swap, offer_i, ".info")} and len(y) == 1:
-                    m = re.match(r"^C:haloswap::asset::PairInfoRaw::query_pools@.*\[([01])\]\.info$", list(y)[0])
+                    m = re.match(r"^C:%s@.*\[([01])\]\.info$" % ctx.N.rx("query_pools"), list(y)[0])
                     if m:
                         hits.add((int(m.group(1)), g))
     if {k for k, _ in hits} != {0, 1}:
